@@ -41,6 +41,7 @@ def make_pkg(extra_env=None, extra_builtins=None, record=None):
         'math': sb.fake_math,
         'pathlib': _mod('pathlib', Path=vfs.VPath),
         'shutil': _mod('shutil', copy=vfs.shutil_copy),
+        'os': vfs.fake_os,
         'tqdm': tq,
         'mtscomp': mts,
         'scipy': scipy, 'scipy.linalg': scipy_linalg, 'scipy.io': scipy_io,
